@@ -17,19 +17,6 @@ GCompare == /\ sel.op = "compare" /\ last = NoCall /\ UNCHANGED sel
             /\ \E y \in sel.lits : last' = [f |-> "compare", ty |-> sel.ty, a |-> Chars(sel.x), b |-> Chars(y), c |-> <<>>]
 GNext == Select \/ GValidate \/ GCompare
 GSpec == Init /\ [][GNext]_vars
-\* classification tags (used only to identify known findings, never as an expectation)
-FacetLits(ty) == FoldLeft(LAMBDA acc, f : acc \o SelectSeq(<<f.mni, f.mxi, f.mne, f.mxe>>, LAMBDA x : x # "") \o f.en, <<>>, ty.st)
-Tz14Edge(p, q) ==     \* one timezoned, one not, and exactly 14 hours apart
-    /\ (p.tz = NoTz) # (q.tz = NoTz)
-    /\ LET P == IF p.tz # NoTz THEN p ELSE q  Q == IF p.tz # NoTz THEN q ELSE p IN
-       InstCmp(InstantD(P, P.tz), InstantD(Q, 840)) = 0 \/ InstCmp(InstantD(P, P.tz), InstantD(Q, -840)) = 0
-Tags(ty, a, b) ==
-    IF ty.v # "a" \/ BT[ty.b].p # "dt" THEN ""
-    ELSE LET va == ValOf(ty, a)
-             others == SelectSeq([i \in 1..Len(FacetLits(ty)) |-> ValOf(ty, Chars(FacetLits(ty)[i]))] \o (IF b = <<>> THEN <<>> ELSE <<ValOf(ty, b)>>), LAMBDA v : v.ok)
-             h24 == ty.b # "time" /\ ((va.ok /\ va.t.h = 24) \/ \E i \in 1..Len(others) : others[i].t.h = 24)
-             edge == va.ok /\ \E i \in 1..Len(others) : Tz14Edge(va.t, others[i].t)
-         IN (IF h24 THEN "hour24," ELSE "") \o (IF edge THEN "tz14-edge," ELSE "")
 CaseRec(l) ==
     IF l.f = "validate" THEN
         LET ok == ValidOp(l.ty, l.a)
